@@ -59,6 +59,26 @@ TraceK(o, m) ==
                    ELSE (op[o].len - hs[i].n) - op[o].total
        IN IF need >= 1 /\ m >= 1 THEN {Min(need, m)} ELSE {}
 
+(* ------------------------------ search guidance ------------------------------ *)
+\* Two reductions keep the depth-first search (nearly) linear; both only cut branches that
+\* cannot be completed to an accepting behaviour, or that are permutations of kept ones.
+\*  (1) A decision of the library that fixes how an operation will end is checked against the
+\*      operation's recorded end at once instead of hundreds of records later: once DIO_STOPPED is
+\*      visible every operation that is not yet disposed ends with an error (strict reading of
+\*      STOP only); once DIO_CLOSED is set every operation still before the barrier queue ends
+\*      with ECANCELED.
+\*  (2) A handler invocation whose block is at the head of its op_q, a handler return and the end
+\*      marker commute with every silent step (they disable nothing): they are consumed first.
+FinalErr(o) == LET hs == cx.ops[o] IN IF hs = <<>> THEN 0 ELSE hs[Len(hs)].err
+StopPrune == Liberal # "no" \/
+             \A o \in Ops : op[o].st \in {"chq", "created", "sq", "listed"} => FinalErr(o) # 0
+ClosePrune == \A o \in Ops : op[o].st \in {"chq", "created"} => FinalErr(o) = 2
+HReady == /\ Ev("H") /\ opq[Rcd.o] # <<>>
+          /\ LET inv == Head(opq[Rcd.o]).inv[1] IN
+             /\ inv.done = (Rcd.done = 1) /\ inv.null = (Rcd.null = 1)
+             /\ ErrClass(inv.err) = Rcd.err /\ Size(inv.data) = Rcd.n
+Forced == HReady \/ Ev("HEnd") \/ Ev("ExecEnd")
+
 (* ------------------------------ executions ------------------------------ *)
 KinOf(r) == IF r.kind = "filein" THEN [wpos |-> r.insize, rpos |-> 0, closed |-> TRUE]
             ELSE [wpos |-> 0, rpos |-> 0, closed |-> FALSE]
@@ -109,7 +129,7 @@ TClose == Ev("Close") /\ Consume /\ CClose
 TRelease == Ev("Release") /\ Consume /\ CRelease
 TStopCall == /\ Ev("StopCall") /\ l' = l + 1 /\ stopping' = TRUE /\ UNCHANGED <<cxi, vars>>
 \* _dispatch_io_stop sets DIO_STOPPED and enqueues its block somewhere inside the call
-TStopEffect == /\ stopping /\ ~stopCall /\ Silent /\ CStop /\ UNCHANGED cstate
+TStopEffect == /\ stopping /\ ~stopCall /\ Silent /\ StopPrune /\ CStop /\ UNCHANGED cstate
 TStopRet == /\ Ev("StopRet") /\ stopCall /\ l' = l + 1 /\ stopping' = FALSE /\ UNCHANGED <<cxi, vars>>
 
 (* ------------------------------ library records ------------------------------ *)
@@ -149,17 +169,18 @@ TPeerHup == Ev("PeerHup") /\ Consume /\ PeerHup
 (* ------------------------------ silent library steps ------------------------------ *)
 TSilent ==
   /\ Silent
-  /\ \/ ChqStep \/ BqStep
+  /\ \/ ChqStep
+     \/ BqStep /\ (Head(bq).k = "close" /\ flags = {} => ClosePrune)
      \/ \E d \in Dirs : SqSenq(d) \/ SqCleanup(d) \/ SqPick(d) \/ SqSyscall(d, TraceK) \/ SqFinish(d) \/ SourceFire(d)
      \/ CloseQRun \/ ChannelDispose
      \/ \E o \in Ops : op[o].conv /\ HandlerRun(o)      \* the internal handler of a convenience call
 
 \* depth-first search explores the LAST disjunct's successors first: consuming a record is
 \* preferred to running the library ahead
-TNext == \/ TSilent
+TNext == \/ ~Forced /\ TSilent
          \/ TReset
          \/ TSetLow \/ TSetHigh \/ TRead \/ TWrite \/ TCRead \/ TCWrite \/ TCH \/ TBarrier \/ TClose \/ TRelease
-         \/ TStopCall \/ TStopEffect \/ TStopRet
+         \/ TStopCall \/ (~Forced /\ TStopEffect) \/ TStopRet
          \/ TH \/ THEnd \/ TBarStart \/ TBarEnd \/ TCleanup \/ TExecEnd
          \/ TPeerWrite \/ TPeerUnwrite \/ TPeerClose \/ TPeerRead \/ TPeerHup
 
